@@ -2,6 +2,7 @@ import HpxVerif.Lemmas.CoverLemmas
 import HpxVerif.Props.C15
 import HpxVerif.Lemmas.ConeReal
 import HpxVerif.Props.C16
+import HpxVerif.Lemmas.CellExtent4
 
 set_option autoImplicit false   -- an unknown identifier in a statement is an error, never a new variable
 
@@ -73,5 +74,38 @@ theorem start_depth_table_regular :
       C16.dyHalvingLo (j + 2) 1 25 (Gen.smallerEdge2OpEdgeDistDyadic.getD (j + 2) (0, 0)) (Gen.smallerEdge2OpEdgeDistDyadic.getD (j + 3) (0, 0)) = true ∧
       C16.dyHalvingHi (j + 2) 1 10 (Gen.smallerEdge2OpEdgeDistDyadic.getD (j + 2) (0, 0)) (Gen.smallerEdge2OpEdgeDistDyadic.getD (j + 3) (0, 0)) = true) :=
   C16.table_halving.1
+
+
+/-! ## H1 discharged in the equatorial region: full flags are truthful, no geometric hypothesis left (`ds ≥ 2`) -/
+
+section EquatorialGeometry
+open Hpx Hpx.Hash Hpx.C2V Hpx.C2VReal Hpx.Proj Hpx.Cover Hpx.CellReal Hpx.EnvelopeReal Hpx.TopoLift Hpx.CellExtent Real
+
+/-- **`cone_full_inside_equatorial`**: under the same assumptions, every position of a strictly equatorial cell that the
+    descent flags FULL is strictly inside the cone. -/
+theorem cone_full_inside_equatorial (cfg : Cfg) (lon lat r : ℝ) (hA : |lat| + r < tl) (ds target : ℕ)
+    (hds : 2 ≤ ds) (ht : target ≤ 29) (dists : List ℝ)
+    (hdists : largestC2VsWithRadius false ds (target + 1) lon lat r = some dists) (fuel root : ℕ)
+    (out : List Bmoc.Cell)
+    (h : coverRec target (coneClassifier (α := ℝ) cfg lon lat (Num.cos lat) (dists.map (toShsMinMax r))) fuel ds root 0
+      = some out)
+    (c : Bmoc.Cell) (hc : c ∈ out) (hf : c.full = true) (q : ℝ × ℝ) (hq : InCellEq c.depth c.hash q) :
+    adist (lon, lat) q < r :=
+  Hpx.CellExtent.cone_full_inside_equatorial cfg lon lat r hA ds target hds ht dists hdists fuel root out h c hc hf q hq
+
+/-- **`H1_equatorial`**: the envelope hypothesis `H1` of `Cover.cone_scheme_no_miss` / `cone_scheme_full_inside`, with
+    `inCell := InCellEq` and `dists` the list computed by `largest_center_to_vertex_distances_with_radius(ds, target + 1,
+    lon, lat, r)` (release profile), holds for every cone whose latitude band stays below the transition latitude
+    (`|lat| + r < tl`), every starting depth `ds ≥ 2` and every target depth `≤ 29`: every position of a strictly
+    equatorial cell of depth `d ∈ [ds, target]` is within `dists[d − ds]` of the position returned by `center`. -/
+theorem h1_equatorial (cfg : Cfg) (lon lat r : ℝ) (hA : |lat| + r < tl) (ds target : ℕ) (hds : 2 ≤ ds)
+    (ht : target ≤ 29) (dists : List ℝ)
+    (hdists : largestC2VsWithRadius false ds (target + 1) lon lat r = some dists) :
+    ∀ d h c D q, ds ≤ d → Hash.center (α := ℝ) cfg d h = some c → dists[d - ds]? = some D → InCellEq d h q →
+      adist c q ≤ D :=
+  Hpx.CellExtent.H1_equatorial cfg lon lat r hA ds target hds ht dists hdists
+
+
+end EquatorialGeometry
 
 end Hpx.C06
